@@ -235,23 +235,65 @@ macro_rules! ansmsg_row {
             let sbits = <$S>::BITS as usize;
             let mut coder = Coder::new();
             let mut refc = RefAns::new(sbits as u32, wbits as u32);
-            let max_syms = if ctx.tier == 0 { 80 } else { 2000 };
+            // C12 only: in half of the cases the symbols are chosen by a greedy adversary that
+            // looks (through the public `state()` / `from_raw_parts`) for the symbol wasting the
+            // most bits in the current state, and every table is reused for a run of symbols.
+            let adversarial = mode == 12 && src.bool();
+            ctx.label_if(adversarial, "adversarial_symbol_choice");
+            let max_syms = match (mode == 12, ctx.tier == 0) {
+                (true, true) => 1500,
+                (true, false) => 20000,
+                (false, true) => 80,
+                (false, false) => 2000,
+            };
             let pop_frac = src.below(256) as usize;
             let mut msg: Vec<(usize, Tab)> = Vec::new();
             let mut cur_sel: u8 = src.below(PRECS.len() as u64) as u8;
             let mut bound_bits = 0f64;
             let mut flushes = 0;
             let export = |c: &Coder| -> Vec<u128> { c.clone().into_compressed().unwrap_infallible().into_iter().map(|x| x as u128).collect() };
-            while msg.len() < max_syms && !src.is_empty() {
-                if src.ratio(1, 4) {
+            let mut run_left = 0usize;
+            let mut run_tab: Option<Tab> = None;
+            while msg.len() < max_syms && (!src.is_empty() || run_left > 0) {
+                if run_left == 0 && src.ratio(1, 4) {
                     let s = src.below(PRECS.len() as u64) as u8;
                     if s != cur_sel {
                         ctx.label("precision_changed");
                     }
                     cur_sel = s;
                 }
-                let tab = gen_tab(src, PRECS[cur_sel as usize], cur_sel, 8);
-                let sym = src.below_usize(tab.n());
+                let tab = if run_left > 0 {
+                    run_left -= 1;
+                    run_tab.clone().expect("harness")
+                } else {
+                    let t = gen_tab(src, PRECS[cur_sel as usize], cur_sel, 8);
+                    if adversarial {
+                        run_left = src.below_usize(48);
+                        run_tab = Some(t.clone());
+                    }
+                    t
+                };
+                let sym = if adversarial {
+                    let x0 = coder.state();
+                    let l0 = if x0 == 0 { 0.0 } else { (x0 as f64).log2() };
+                    let mut best = (f64::MIN, 0usize);
+                    for s in 0..tab.n() {
+                        let mut twin = AnsCoder::<$W, $S, Vec<$W>>::from_raw_parts(Vec::new(), x0);
+                        let r = with_prec!(tab.sel, $plist, |M| twin.encode_symbol(s, M::new(&tab)));
+                        if r.is_err() {
+                            continue;
+                        }
+                        let x1 = twin.state();
+                        let l1 = if x1 == 0 { 0.0 } else { (x1 as f64).log2() };
+                        let waste = (wbits * twin.bulk().len()) as f64 + l1 - l0 - (tab.prec as f64 - (tab.prob(s) as f64).log2());
+                        if waste > best.0 {
+                            best = (waste, s);
+                        }
+                    }
+                    best.1
+                } else {
+                    src.below_usize(tab.n())
+                };
                 note!(ctx, "encode sym={} {}", sym, tab.render());
                 let (c, p, prec) = (tab.left(sym), tab.prob(sym), tab.prec);
                 ctx.label_if(p == 1, "prob_1_quantum");
